@@ -309,6 +309,10 @@ static const char* PFX_NAMES[] = { "I", "In", "Interval", "Integer", "Int2", "Fl
 #define NPFX ((int)(sizeof PFX_NAMES / sizeof PFX_NAMES[0]))
 static var PFX[NPFX];
 
+enum { NPSZ = 10 };
+static const size_t PSZ_SIZE[NPSZ] = { 1, 2, 3, 4, 7, 8, 9, 16, 17, 24 };
+static var PSZ[NPSZ];
+
 static void fixed(void) {
   /* Int grid: all pairs, all triples */
   for (int i = 0; i < nigrid; i++) {
@@ -418,6 +422,21 @@ static void case_random(vh_rng* r, long index) {
     check_pair("struct", xa, xb, sgn(memcmp(&oa, &ob, 12)), d);
     vh_count("struct_pairs");
   }
+  /* plain types of every small size (a word, less than a word, just over a word, ...): byte-wise whatever the size */
+  for (int n = 0; n < 12; n++) {
+    int si = (int)vh_below(r, NPSZ); size_t sz = PSZ_SIZE[si];
+    _Alignas(16) char ba[sizeof(struct Header) + 32], bb[sizeof(struct Header) + 32];
+    memset(ba, 0, sizeof ba); memset(bb, 0, sizeof bb);
+    var xa = header_init(ba, PSZ[si], AllocStack), xb = header_init(bb, PSZ[si], AllocStack);
+    unsigned char* pa = xa; unsigned char* pb = xb;
+    for (size_t i = 0; i < sz; i++) { pa[i] = (unsigned char)(vh_chance(r, 50) ? vh_below(r, 3) : vh_below(r, 256)); pb[i] = vh_chance(r, 70) ? pa[i] : (unsigned char)vh_below(r, 256); }
+    char d[120];
+    int ndiff = 0; for (size_t i = 0; i < sz; i++) { ndiff += pa[i] != pb[i]; }
+    snprintf(d, sizeof d, "plain %zu-byte type, %d bytes differ, memcmp sign %d", sz, ndiff, sgn(memcmp(pa, pb, sz)));
+    check_pair("struct", xa, xb, sgn(memcmp(pa, pb, sz)), d);
+    if (ndiff >= 2) { vh_count("sized_struct_pairs_differing_in_two_or_more_bytes"); }
+    if (sz == sizeof(var) && ndiff >= 2) { vh_count("word_sized_struct_pairs_differing_in_two_or_more_bytes"); }
+  }
   /* sequences, all kind combinations */
   for (int n = 0; n < 8; n++) {
     struct seqref sa, sb, sc;
@@ -455,6 +474,7 @@ static void case_random(vh_rng* r, long index) {
 int main(int argc, char** argv) {
   Plain = new_root(Type, $S("Plain"), $I(sizeof(struct Plain)));
   Odd = new_root(Type, $S("Odd"), $I(sizeof(struct Odd)));
+  for (int i = 0; i < NPSZ; i++) { char nm[16]; snprintf(nm, sizeof nm, "Plain%zu", PSZ_SIZE[i]); PSZ[i] = new_root(Type, $S(strdup(nm)), $I((int64_t)PSZ_SIZE[i])); }
   for (int i = 0; i < MAXSEQ; i++) { for (int v = 0; v < 5; v++) { SHARED[i][v] = new_root(Int, $I(v - 2)); } }
   for (int i = 0; i < NPFX; i++) { PFX[i] = new_root(Type, $S((char*)PFX_NAMES[i]), $I(8 + 8 * (i % 3))); }
   build_int_grid();
